@@ -65,39 +65,24 @@ Qed.
 Lemma numReveals_ok_inv : forall sw lnPW st n,
   numReveals sw lnPW st = WOk n ->
   0 < sw /\ 0 < denom sw lnPW /\
-  n = ((numerator sw st / denom sw lnPW) mod two64 + 1) mod two64 /\ n <= MaxReveals.
+  n = numerator sw st / denom sw lnPW + 1 /\ 0 < n <= MaxReveals.
 Proof.
-  intros sw lnPW st n. unfold numReveals. cbv zeta.
+  intros sw lnPW st n. unfold numReveals, isUint64. cbv zeta.
   destruct (Z.leb_spec sw 0); [discriminate|].
   destruct (Z.leb_spec (denom sw lnPW) 0); [discriminate|].
-  destruct (Z.gtb_spec (((numerator sw st / denom sw lnPW) mod two64 + 1) mod two64) MaxReveals);
-    [discriminate|].
-  intros E. inversion E. subst. repeat split; lia.
-Qed.
-
-Lemma no_trunc_value : forall q, 0 <= q -> q + 1 < two64 -> ((q mod two64) + 1) mod two64 = q + 1.
-Proof.
-  intros q H0 H1. unfold two64 in *.
-  rewrite (Z.mod_small q) by lia. apply Z.mod_small. lia.
-Qed.
-
-(* quotient is non-negative on the admissible domain *)
-Lemma quotient_nonneg : forall sw lnPW st, 0 < sw -> 0 <= st -> 0 < denom sw lnPW ->
-  0 <= numerator sw st / denom sw lnPW.
-Proof.
-  intros. apply Z.div_pos; [|assumption].
-  unfold numerator, ln2Int. pose proof (subY_pos sw H). nia.
+  destruct (Z.leb_spec 0 (numerator sw st / denom sw lnPW));
+  destruct (Z.ltb_spec (numerator sw st / denom sw lnPW) two64);
+  destruct (Z.geb_spec (numerator sw st / denom sw lnPW) MaxReveals);
+  cbn [negb andb orb]; try discriminate.
+  intros E. inversion E. subst. unfold MaxReveals in *. repeat split; lia.
 Qed.
 
 Lemma prover_satisfies_verifier_l : forall sw lnPW st n,
-  0 <= st ->
-  numerator sw st / denom sw lnPW + 1 < two64 ->
   numReveals sw lnPW st = WOk n ->
   verifyWeights sw lnPW n st = WOk tt.
 Proof.
-  intros sw lnPW st n Hst Hq Hn.
+  intros sw lnPW st n Hn.
   apply numReveals_ok_inv in Hn. destruct Hn as (Hsw & Hd & En & Hmax).
-  rewrite no_trunc_value in En by (try apply quotient_nonneg; assumption).
   apply verifyWeights_ok_iff_denom. repeat split; try lia.
   pose proof (Z.div_mod (numerator sw st) (denom sw lnPW) ltac:(lia)) as DM.
   pose proof (Z.mod_pos_bound (numerator sw st) (denom sw lnPW) Hd) as MB.
@@ -105,15 +90,12 @@ Proof.
 Qed.
 
 Lemma verifier_rejects_smaller_l : forall sw lnPW st n,
-  0 <= st ->
-  numerator sw st / denom sw lnPW + 1 < two64 ->
   numReveals sw lnPW st = WOk n ->
   (forall m, 0 <= m < n - 1 -> verifyWeights sw lnPW m st = WErr ErrInsufficientSignedWeight) /\
   (verifyWeights sw lnPW (n - 1) st = WOk tt <-> numerator sw st mod denom sw lnPW = 0).
 Proof.
-  intros sw lnPW st n Hst Hq Hn.
+  intros sw lnPW st n Hn.
   apply numReveals_ok_inv in Hn. destruct Hn as (Hsw & Hd & En & Hmax).
-  rewrite no_trunc_value in En by (try apply quotient_nonneg; assumption).
   pose proof (Z.div_mod (numerator sw st) (denom sw lnPW) ltac:(lia)) as DM.
   pose proof (Z.mod_pos_bound (numerator sw st) (denom sw lnPW) Hd) as MB.
   split.
@@ -123,6 +105,25 @@ Proof.
     split.
     + intros (_ & _ & H). nia.
     + intros H. repeat split; try lia; nia.
+Qed.
+
+(* the fix changes nothing where the count fits 64 bits *)
+Lemma numReveals_fix_conservative : forall sw lnPW st,
+  0 <= st -> numerator sw st / denom sw lnPW + 1 < two64 ->
+  numReveals sw lnPW st = numReveals_unfixed sw lnPW st.
+Proof.
+  intros sw lnPW st Hst Hq. unfold numReveals, numReveals_unfixed, isUint64. cbv zeta.
+  destruct (Z.leb_spec sw 0); [reflexivity|].
+  destruct (Z.leb_spec (denom sw lnPW) 0); [reflexivity|].
+  assert (Hq0 : 0 <= numerator sw st / denom sw lnPW).
+  { apply Z.div_pos; [|assumption]. unfold numerator, ln2Int. pose proof (subY_pos sw H). nia. }
+  set (q := numerator sw st / denom sw lnPW) in *.
+  assert (E : (q mod two64 + 1) mod two64 = q + 1).
+  { unfold two64 in *. rewrite (Z.mod_small q) by lia. apply Z.mod_small. lia. }
+  rewrite E.
+  destruct (Z.leb_spec 0 q); [|lia]. destruct (Z.ltb_spec q two64); [|lia].
+  cbn [negb andb orb].
+  destruct (Z.geb_spec q MaxReveals); destruct (Z.gtb_spec (q + 1) MaxReveals); try reflexivity; lia.
 Qed.
 
 Lemma verifier_monotone_l : forall sw lnPW st n n',
@@ -154,9 +155,10 @@ Qed.
 Lemma prover_satisfies_verifier_refuted_l :
   exists sw lnPW st n,
     0 < sw < two64 /\ 0 <= lnPW < two64 /\ 0 <= st < two64 /\
-    numReveals sw lnPW st = WOk n /\
+    numReveals_unfixed sw lnPW st = WOk n /\
     verifyWeights sw lnPW n st = WErr ErrInsufficientSignedWeight /\
-    two64 <= numerator sw st / denom sw lnPW.
+    two64 <= numerator sw st / denom sw lnPW /\
+    numReveals sw lnPW st = WErr ErrTooManyReveals.
 Proof.
   exists 2, 45425, 16469161498611801019, 2.
   vm_compute. repeat split; try reflexivity; try discriminate.
